@@ -3,7 +3,7 @@ SPECIFICATION Spec
 CONSTANTS
   Keys = {1, 2, 3}
   Kinds = {"LRU", "LFU", "FIFO", "Adaptive"}
-  MaxFreq = 5
+  MaxFreq = 4
   MaxLen = 4
   AsImplemented_NoRemoveHook = FALSE
   AsImplemented_FifoDuplicates = FALSE
